@@ -127,7 +127,23 @@ def g2_left_fold(ctx):
     left, right, op = b.expr(f['left']), b.expr(f['right']), b.expr(f['operator'])
     lt, rt, ot = render(left), render(right), render(op)
     acc = any(x[0] in ('loop', 'phi') for x in walk(left))
-    fresh = re.fullmatch(r'Rc::new\((Result::unwrap\()?SyntaxParserTrait::parse\(parser\)\)?( as Ok\.0)?\)', rt)
+    FRESH = r'(Result::unwrap\()?SyntaxParserTrait::parse\(parser\)\)?( as Ok\.0)?'
+    fresh = re.fullmatch(r'Rc::new\(%s\)' % FRESH, rt)
+    if not fresh:
+        # the operand may come from a helper of this file that hands back what the tighter level parsed: every Ok(..) the
+        # helper returns is the payload of a T::parse(parser) call made in it (errors are propagated unchanged)
+        r2 = strip(right)
+        while r2[0] == 'call' and re.search(r'Rc::<.*>::new$|Rc::new$', r2[1]) and r2[2]:
+            r2 = strip(r2[2][0])
+        while (r2[0] == 'field' and r2[1][0] == 'downcast' and r2[1][2] == 'Ok') or (r2[0] == 'call' and re.search(r'Result::<.*>::unwrap$', r2[1])):
+            r2 = strip(r2[1][1] if r2[0] == 'field' else r2[2][0])
+        hb = ctx.facts.bodies.get(r2[1]) if r2[0] == 'call' else None
+        if hb is not None and hb.file == b.file and [render(a) for a in r2[2]] == ['parser']:
+            oks = [render(a[2][0]) for a, _ in alternatives(hb, hb.ret_expr()) if strip(a)[0] == 'aggr' and a[1].endswith('Result::Ok')]
+            others = [render(a) for a, _ in alternatives(hb, hb.ret_expr()) if not (strip(a)[0] == 'aggr' and a[1].endswith('Result::Ok'))]
+            if oks and all(re.fullmatch(FRESH, o) for o in oks) and all(re.fullmatch(r'from_residual\(branch\(SyntaxParserTrait::parse\(parser\)\) as Break\.0\)|SyntaxParserTrait::parse\(parser\)', o) for o in others):
+                ctx.fn(hb)
+                fresh = True
     if not acc or re.fullmatch(r'Rc::new\((Result::unwrap\()?SyntaxParserTrait::parse\(parser\)\)?\)', lt):
         ctx.finding('G2', 'parse_binary/left-operand', 'the new node\'s left child is %s, not the expression accumulated so far: equal-precedence operators no longer associate to the left' % lt[:120], site=s['loc'])
     elif not fresh:
@@ -186,46 +202,49 @@ def g3_tables(ctx):
 
 def g4_division(ctx):
     """G4 do_divition(l, r) = l / r, replaced by 0 exactly when the quotient is infinite or NaN"""
+    import math
+    from ..evalint import try_ev, fdiv
     ctx.rule('G4', 'guarded division', floor=2)
     b = ctx.facts.one(r'^tools::do_divition$')
     ctx.fn(b)
     if b.argc != 2:
         raise AnchorLost('do_divition no longer takes two arguments')
-    a1, a2 = b.arg_names[1], b.arg_names[2]
-    quot = '(%s Div %s)' % (a1, a2)
-    n_q = 0
-    for i in b.normal_blocks:
-        for s in b.blocks[i]['stmts']:
-            if s['k'] != 'assign' or s['lhs']['ty'] != 'f64':
-                continue
-            if s['rv'] == 'binop' and s['op'] == 'Div':
-                txt = render(b.expr({'copy': s['lhs']}) if False else ('binop', 'Div', b.expr(s['ops'][0]), b.expr(s['ops'][1])))
-                n_q += 1
-                if txt != quot:
-                    ctx.finding('G4', 'do_divition/quotient', 'do_divition divides %s; expected %s' % (txt, quot), site=s['loc'])
-                else:
-                    ctx.ok('G4', 'quotient = %s' % quot, 'shape', site=s['loc'])
-            elif s['rv'] == 'use' and 'const' in s['ops'][0]:
-                val = s['ops'][0]['const'].get('val')
-                edges = b.incoming_edge_conds(i)
-                texts = [cond_str(d, v) for d, v in edges]
-                good = texts and all(re.fullmatch(r'f64::(is_infinite|is_nan)\(.*\)!=\[0\]', t) for t in texts)
-                kinds = set(re.findall(r'f64::(is_infinite|is_nan)', ' '.join(texts)))
-                if val != 0.0:
-                    ctx.finding('G4', 'do_divition/replacement-value', 'a non-finite quotient is replaced by %r, the statement says 0' % val, site=s['loc'])
-                elif not good:
-                    ctx.finding('G4', 'do_divition/zero-condition', 'do_divition yields 0 under a condition other than "the quotient is infinite or NaN": %s' % texts, site=s['loc'])
-                elif kinds != {'is_infinite', 'is_nan'}:
-                    ctx.finding('G4', 'do_divition/guard-incomplete', 'the guard covers only %s; division by zero yields +-inf (x/0) or NaN (0/0), both must become 0' % sorted(kinds), site=s['loc'])
-                else:
-                    ctx.ok('G4', '0 exactly when is_infinite(q) || is_nan(q)', 'edge-conditions', site=s['loc'])
-    # early returns with constants: a definition of the return slot that is itself a constant
-    for (bid, kind, x) in b.defs().get(0, []):
-        if kind == 'stmt' and x['rv'] == 'use' and 'const' in x['ops'][0]:
-            ctx.finding('G4', 'do_divition/constant-return', 'do_divition returns the constant %s early, under %s: a quotient that is finite is no longer returned as it is' % (
-                x['ops'][0]['const']['text'], b.cond_text(bid) or [cond_str(d, v) for d, v in b.incoming_edge_conds(bid)]), site=x['loc'])
-    if n_q != 1:
-        raise AnchorLost('do_divition: expected exactly one f64 division, found %d' % n_q)
+    if b.loops():
+        raise AnchorLost('do_divition contains a loop: its value is no longer a term')
+    ret = b.ret_expr()
+    # (a) structure: the term is built from exactly one division, of the first argument by the second
+    divs = {render(x) for x in walk(ret) if x[0] == 'binop' and x[1] == 'Div'}
+    quot = '(%s Div %s)' % (b.arg_names[1], b.arg_names[2])
+    if divs == {quot}:
+        ctx.ok('G4', 'quotient = %s' % quot, 'shape', site=b.loc)
+    else:
+        ctx.note('G4: do_divition is not written as one division %s (found %s); decided by the table alone' % (quot, sorted(divs)))
+    # (b) the returned term, tabulated over representatives of every class of quotient (finite of both signs, zero,
+    #     +inf, -inf, NaN from 0/0, overflow to inf of finite operands, non-finite operands, huge-but-finite)
+    vals = [0.0, -0.0, 6.0, -6.0, 0.5, 1e308, -1e308, 1e-308, 1e305, 5e-324, math.inf, -math.inf, math.nan]
+    bad = {}
+    n = 0
+    for l in vals:
+        for r in vals:
+            def leaf(body, e, l=l, r=r):
+                if e[0] == 'arg':
+                    return l if e[1] == 1 else r
+                return None
+            got = try_ev(b, ret, leaf)
+            q = fdiv(l, r)
+            want = q if math.isfinite(q) else 0.0
+            n += 1
+            if got is None:
+                raise AnchorLost('do_divition: the returned term cannot be evaluated for (%r, %r)' % (l, r))
+            if not (got == want):
+                cls = 'nan' if math.isnan(q) else 'inf' if math.isinf(q) else 'finite'
+                bad.setdefault(cls, []).append((l, r, got, want))
+    if not bad:
+        ctx.ok('G4', 'do_divition(l, r) == (l/r if finite else 0) on %d operand pairs covering finite, +-inf, NaN and overflowing quotients' % n, 'table', site=b.loc)
+    for cls, rows in sorted(bad.items()):
+        l, r, got, want = rows[0]
+        key = {'finite': 'do_divition/finite-quotient-changed', 'inf': 'do_divition/infinite-quotient-kept', 'nan': 'do_divition/nan-quotient-kept'}[cls]
+        ctx.finding('G4', key, 'do_divition(%r, %r) is %r, the statement says %r (%d of %d pairs with a %s quotient differ)' % (l, r, got, want, len(rows), n, cls), site=b.loc)
 
 
 def suffix_table(ctx, b):
